@@ -122,8 +122,29 @@ func runC17(c *Ctx) {
 // c17Guarded: `at` uses value v; every path to it passes
 // pathMatchesAny(<DNSFilter.safeFSPatterns>, v) == true and v is a
 // filepath.Clean result.
+// c17Cleaned: v is the result of filepath.Clean, or a parameter of an
+// unexported helper to which every caller passes such a value.
+func c17Cleaned(v ssa.Value, depth int) bool {
+	if core.IsCallResult(v, -1, "path/filepath.Clean") {
+		return true
+	}
+	if prm, ok := v.(*ssa.Parameter); ok && depth < 3 {
+		args := core.ArgsOfParam(prm)
+		if len(args) == 0 {
+			return false
+		}
+		for _, a := range args {
+			if !c17Cleaned(a, depth+1) {
+				return false
+			}
+		}
+		return true
+	}
+	return false
+}
+
 func c17Guarded(fn *ssa.Function, v ssa.Value, at ssa.Instruction) (bool, string) {
-	if !core.IsCallResult(v, -1, "path/filepath.Clean") {
+	if !c17Cleaned(v, 0) {
 		return false, "the opened value is not the result of filepath.Clean"
 	}
 	g, n := core.CondEdges(fn, func(a core.Atom) (bool, bool) {
@@ -200,7 +221,7 @@ func c17Entry(c *Ctx) {
 			if at.Op == token.ILLEGAL {
 				if call, _, ok := core.CallResult(at.Base); ok && core.CalleeKey(call.Common()) == "filtering.pathMatchesAny" {
 					args := call.Common().Args
-					if len(args) == 2 && core.IsCallResult(args[1], -1, "path/filepath.Clean") {
+					if len(args) == 2 && c17Cleaned(args[1], 0) {
 						if fr, _, ok := core.LoadedField(args[0]); ok && fr.Field == "safeFSPatterns" {
 							return true, true
 						}
@@ -213,7 +234,60 @@ func c17Entry(c *Ctx) {
 			}
 			return false, false
 		})
-		off, ns := core.UnguardedSinks(vf, func(in ssa.Instruction) bool { return isSuccessReturn(vf, in) }, g)
+		vmatch := func(at core.Atom) (bool, bool) {
+			if at.Op == token.ILLEGAL {
+				if call, _, ok := core.CallResult(at.Base); ok && core.CalleeKey(call.Common()) == "filtering.pathMatchesAny" {
+					args := call.Common().Args
+					if len(args) == 2 && c17Cleaned(args[1], 0) {
+						if fr, _, ok := core.LoadedField(args[0]); ok && fr.Field == "safeFSPatterns" {
+							return true, true
+						}
+					}
+				}
+			}
+			if (at.Op == token.NEQ || at.Op == token.EQL) && core.IsNilConst(at.Other) &&
+				core.IsCallResult(at.Base, -1, "github.com/AdguardTeam/golibs/netutil/urlutil.ValidateHTTPURL") {
+				return true, at.Op == token.EQL
+			}
+			return false, false
+		}
+		nHelper := 0
+		off, ns := core.UnguardedSinks(vf, func(in ssa.Instruction) bool {
+			if !isSuccessReturn(vf, in) {
+				return false
+			}
+			// `return helper(...)`: succeeds only if the helper does; a helper that returns nil only through the
+			// pattern match / URL validation is as good as the test itself
+			if ret, ok := core.AsReturn(in); ok && len(ret.Results) == 1 {
+				all := true
+				rv := core.Res(ret, 0)
+				var leaves []ssa.Value
+				if ld, isLoad := rv.(*ssa.UnOp); isLoad {
+					if cell, isCell := ld.X.(*ssa.Alloc); isCell {
+						// the error result lives in a cell because a deferred closure annotates it (nil stays nil)
+						vals, zero, _ := core.ReachingStores(cell, ld)
+						if !zero {
+							leaves = vals
+						}
+					}
+				}
+				if len(leaves) == 0 {
+					leaves = core.FlattenPhi(core.ResolveLocalLoad(rv))
+				}
+				for _, l := range leaves {
+					if _, isCall := l.(*ssa.Call); !isCall || !core.LiftNil(l, vmatch) {
+						all = false
+					}
+				}
+				if all {
+					nHelper++
+					return false
+				}
+			}
+			return true
+		}, g)
+		ns += nHelper
+		n += nHelper
 		r.Eval(n + ns)
 		r.Check(n >= 2 && ns > 0 && len(off) == 0, "C17-D2", "validateFilterURL:accepts-only-safe", p.FnPos(vf),
 			"validateFilterURL succeeds only via the safe-pattern match on the cleaned path or via the HTTP(S) URL validation",
